@@ -223,6 +223,14 @@ func readUnifiedChunk(r *diffReader) error {
 		return fmt.Errorf("line %d: right span: %w", r.ln, err)
 	}
 
+	// An empty range is identified by the line that precedes it.
+	if strings.HasSuffix(parts[1], ",0") {
+		llo++
+	}
+	if strings.HasSuffix(parts[2], ",0") {
+		rlo++
+	}
+
 	ch := &Chunk{LStart: llo, LEnd: llo + lhi, RStart: rlo, REnd: rlo + rhi}
 	add := func(op slice.EditOp, text string) {
 		if len(ch.Edits) == 0 || ch.Edits[len(ch.Edits)-1].Op != op {
